@@ -8,6 +8,7 @@ import Pangaea.Drv.C16
 import Pangaea.Drv.C17
 import Pangaea.Drv.C05
 import Pangaea.Drv.C09
+import Pangaea.Drv.C12
 
 def dispatch (line : String) : String :=
   let toks := (line.trimAscii.toString.splitOn " ").filter (· ≠ "")
@@ -22,6 +23,7 @@ def dispatch (line : String) : String :=
     | "C17" :: rest => Pangaea.Drv.C17.handle rest
     | "C05" :: rest => Pangaea.Drv.C05.handle rest
     | "C09" :: rest => Pangaea.Drv.C09.handle rest
+    | "C12" :: rest => Pangaea.Drv.C12.handle rest
     | _ => ("bad-op", "bad-op")
   r.1 ++ "\t" ++ r.2
 
